@@ -22,6 +22,22 @@ int __CPROVER_uninterpreted_item_subtype(qitem i);
 #define ITEM_SUB(i) __CPROVER_uninterpreted_item_subtype(i)
 static inline qstr qitem_bareJid(qitem i) { return ITEM_JID(i); }
 static inline int qitem_subscriptionType(qitem i) { return ITEM_SUB(i); }
+/* the other const getters of an item: each an (uninterpreted) function of the item value.  Nothing says that two items
+ * which agree on some, or on all, of these observations are the same item: "the cached entry IS the pushed item" is id
+ * equality, so code that keeps the cached item because a comparison of getters found no difference does not establish it. */
+typedef int qstrset;   /* a QSet<QString> value (opaque; equal ids = equal sets) */
+qstr __CPROVER_uninterpreted_item_name(qitem i);
+qstr __CPROVER_uninterpreted_item_subscriptionStatus(qitem i);
+qstrset __CPROVER_uninterpreted_item_groups(qitem i);
+bool __CPROVER_uninterpreted_item_isApproved(qitem i);
+bool __CPROVER_uninterpreted_item_isMixChannel(qitem i);
+qstr __CPROVER_uninterpreted_item_mixParticipantId(qitem i);
+static inline qstr qitem_name(qitem i) { return __CPROVER_uninterpreted_item_name(i); }
+static inline qstr qitem_subscriptionStatus(qitem i) { return __CPROVER_uninterpreted_item_subscriptionStatus(i); }
+static inline qstrset qitem_groups(qitem i) { return __CPROVER_uninterpreted_item_groups(i); }
+static inline bool qitem_isApproved(qitem i) { return __CPROVER_uninterpreted_item_isApproved(i); }
+static inline bool qitem_isMixChannel(qitem i) { return __CPROVER_uninterpreted_item_isMixChannel(i); }
+static inline qstr qitem_mixParticipantId(qitem i) { return __CPROVER_uninterpreted_item_mixParticipantId(i); }
 
 /* ---- QList<Item> : size and element are functions of the list value.
  * LIST_LAST(l) is the specification's own description of "the item that wins for the witness JID": the LAST index whose
@@ -59,6 +75,35 @@ static inline int RosterMap_remove(RosterMap *m, qstr k)
 static inline bool RosterMap_contains(const RosterMap *m, qstr k) { return k == g_j ? m->w_present : nondet_bool(); }
 static inline void RosterMap_insert(RosterMap *m, qstr k, qitem v) { if (k == g_j) { m->w_present = true; m->w_value = v; } }
 static inline void RosterMap_clear(RosterMap *m) { m->w_present = false; }
+/* lookups: value(k) and (const) iterators obtained from find / constFind / end / constEnd.  An iterator of the witness view is
+ * "end" or "at key k with the item stored there"; at another key than g_j the map's content is unknown, so the lookup answers
+ * nondeterministically (found or not, any item).  Iterators are read-only here (no assignment through *it / it.value()) and
+ * are never advanced (iteration over the map is not part of the witness view). */
+static inline qitem RosterMap_value(const RosterMap *m, qstr k)
+{
+  if (k == g_j) return m->w_present ? m->w_value : 0 /* default-constructed item */;
+  return nondet_bool() ? nondet_qitem() : 0;
+}
+typedef struct RosterIt { bool at_end; qstr key; qitem value; } RosterIt;
+static inline void RosterMap_find(RosterIt *ret, const RosterMap *m, qstr k)
+{
+  ret->key = k;
+  if (k == g_j) { ret->at_end = !m->w_present; ret->value = m->w_value; }
+  else { ret->at_end = nondet_bool(); ret->value = nondet_qitem(); }
+}
+static inline void RosterMap_end(RosterIt *ret, const RosterMap *m) { ret->at_end = true; ret->key = 0; ret->value = 0; }
+static inline bool RosterIt_eq(const RosterIt *a, const RosterIt *b) { return (a->at_end || b->at_end) ? (a->at_end && b->at_end) : a->key == b->key; }
+static inline bool RosterIt_ne(const RosterIt *a, const RosterIt *b) { return !RosterIt_eq(a, b); }
+static inline qitem RosterIt_value(const RosterIt *it)
+{
+  __CPROVER_assert(!it->at_end, "[safety.map_iterator_not_end] a QMap iterator is dereferenced only when it is not end()");
+  return it->value;
+}
+static inline qstr RosterIt_key(const RosterIt *it)
+{
+  __CPROVER_assert(!it->at_end, "[safety.map_iterator_not_end] a QMap iterator is dereferenced only when it is not end()");
+  return it->key;
+}
 
 /* ---- QMap<QString, QMap<QString, QXmppPresence>> presences : view at (g_b, g_r).
  * presences[g_b][g_r] exists  <=>  w.w_present   (the outer entry exists whenever the inner one does: w_outer) */
